@@ -38,68 +38,98 @@ def tree_info():
     return _info_cache['v']
 
 
+def probe_info():
+    """the macro list the probe programs are generated from: that of the translation, or - when the translation
+    failed only because an output call is outside the `constant format + matching arguments` grammar - that of
+    a lenient second reading (the theorems stay broken; the probes then look for a failing cell)"""
+    if 'p' not in _info_cache:
+        text, info = tree_info()
+        if text is None:
+            try:
+                _, info = gen_c20.generate(vlib.REPO, lenient=True)
+            except gen_c20.GenError:
+                info = None
+        _info_cache['p'] = info
+    return _info_cache['p']
+
+
 def probe_variants(info):
-    """list of (macro name, takes a condition) in ladder order, then the primitives"""
+    """list of (macro name, takes a condition, has a second variant of its use) in ladder order, then the primitives"""
     fam = info['families']
     v = []
     for n in fam['hdr']:
-        v.append((n, False))
+        v.append((n, False, False))
     for (n, rv) in fam['assert_cond']:
-        v.append((n, True))
+        v.append((n, True, True))
     for (n, rv) in fam['notreached']:
-        v.append((n, False))
+        v.append((n, False, False))
     for (n, rv) in fam['require']:
-        v.append((n, True))
+        v.append((n, True, True))
     for n in fam['abort']:
-        v.append((n, False))
+        v.append((n, False, False))
     for n in fam['dprintf_plain']:
-        v.append((n, False))
+        v.append((n, False, True))
     for (n, k) in fam['dprintf']:
-        v.append((n, False))
+        v.append((n, False, True))
     for n in fam['never']:
-        v.append((n, False))
+        v.append((n, False, True))
     for d in fam['d']:
-        v.append((d['name'], False))
-        v.append((d['if_name'], False))
+        v.append((d['name'], False, True))
+        v.append((d['if_name'], False, False))
     for p in PRIMS:
-        v.append((p, False))
+        v.append((p, False, True))
     return v
 
 
+# the condition of the second variant: evaluates to g_cond, counts one evaluation, and its spelling is full
+# of text that looks like printf conversions (a log call that takes the stringified condition for its format
+# string prints garbage or dies in vfprintf).  No %n.
+COND2 = '(n_cond++, (g_cond % 2) && "%s%d%%% s%5.3s%lu"[0] == \'%\')'
+
+
 def uses_header(info):
-    """C text of c20_uses.h: one function per macro of the generated list"""
+    """C text of c20_uses.h: two functions per macro of the generated list (second variant: condition text /
+    argument strings that look like conversions), plus the text each must log literally"""
     fam = info['families']
     fn, tab = [], []
 
-    def cid(n):
-        return 'use_' + re.sub(r'\W', '_', n)
+    def cid(n, second=False):
+        return 'use_' + re.sub(r'\W', '_', n) + ('_2' if second else '')
 
-    def void(n, stmt):
+    def void(n, stmt, expect='NULL', stmt2=None, expect2='NULL'):
         fn.append('static void %s(void) { fell = 0; %s fell = 1; }' % (cid(n), stmt))
-        tab.append('    { "%s", 0, %s, NULL },' % (n, cid(n)))
+        if stmt2 is not None:
+            fn.append('static void %s(void) { fell = 0; %s fell = 1; }' % (cid(n, True), stmt2))
+        tab.append('    { "%s", 0, %s, NULL, %s, %s, NULL, %s },' % (n, cid(n), expect, cid(n, True) if stmt2 is not None else 'NULL',
+                                                                    expect2 if stmt2 is not None else expect))
 
-    def intf(n, stmt):
+    def intf(n, stmt, expect='NULL', stmt2=None, expect2='NULL'):
         fn.append('static int %s(void) { fell = 0; %s fell = 1; return P_FALLTHROUGH; }' % (cid(n), stmt))
-        tab.append('    { "%s", 1, NULL, %s },' % (n, cid(n)))
+        if stmt2 is not None:
+            fn.append('static int %s(void) { fell = 0; %s fell = 1; return P_FALLTHROUGH; }' % (cid(n, True), stmt2))
+        tab.append('    { "%s", 1, NULL, %s, %s, NULL, %s, %s },' % (n, cid(n), expect, cid(n, True) if stmt2 is not None else 'NULL',
+                                                                    expect2 if stmt2 is not None else expect))
     for n in fam['hdr']:
         void(n, '%s();' % n)
     for (n, rv) in fam['assert_cond'] + fam['require']:
-        (intf if rv else void)(n, '%s(P_COND%s);' % (n, ', P_VAL' if rv else ''))
+        tail = ', P_VAL' if rv else ''
+        (intf if rv else void)(n, '%s(P_COND%s);' % (n, tail), '"P_COND"',
+                               '%s(%s%s);' % (n, COND2, tail), 'P_STR(%s)' % COND2)
     for (n, rv) in fam['notreached']:
         (intf if rv else void)(n, '%s(%s);' % (n, 'P_VAL' if rv else ''))
     for n in fam['abort']:
         void(n, '%s();' % n)
     for n in fam['dprintf_plain'] + [x for (x, _) in fam['dprintf']] + fam['never']:
-        void(n, '%s(P_ARGS);' % n)
+        void(n, '%s(P_ARGS);' % n, 'P_ARGS_TEXT', '%s(P_ARGS2);' % n, 'P_ARGS2_TEXT')
     for d in fam['d']:
-        void(d['name'], '%s(P_ARGS);' % d['name'])
+        void(d['name'], '%s(P_ARGS);' % d['name'], 'P_ARGS_TEXT', '%s(P_ARGS2);' % d['name'], 'P_ARGS2_TEXT')
         void(d['if_name'], '%s { n_mark++; }' % d['if_name'])
-    void('prim:dprintf', 'libast_dprintf("probe-msg %d\\n", 7);')
-    void('prim:warning', 'libast_print_warning("probe-msg %d\\n", 7);')
-    void('prim:error', 'libast_print_error("probe-msg %d\\n", 7);')
-    void('prim:fatal', 'libast_fatal_error("probe-msg %d\\n", 7);')
+    for (pn, f) in (('prim:dprintf', 'libast_dprintf'), ('prim:warning', 'libast_print_warning'),
+                    ('prim:error', 'libast_print_error'), ('prim:fatal', 'libast_fatal_error')):
+        void(pn, '%s("probe-msg %%d\\n", 7);' % f, 'P_ARGS_TEXT',
+             '%s("probe-arg [%%s] %%d%%%% [%%-4s] %%%%s\\n", "100%%s %%d %%%% %% s %%lu", 7, "%%x");' % f, 'P_ARGS2_TEXT')
     return ('/* GENERATED by checks/c20.py from the macro list of tools/gen_c20.py - do not edit */\n' +
-            '\n'.join(fn) + '\nstatic const struct use uses[] = {\n' + '\n'.join(tab) + '\n    { NULL, 0, NULL, NULL }\n};\n')
+            '\n'.join(fn) + '\nstatic const struct use uses[] = {\n' + '\n'.join(tab) + '\n    { NULL, 0, NULL, NULL, NULL, NULL, NULL, NULL }\n};\n')
 
 
 # --------------------------------------------------------------------------------------
@@ -113,9 +143,9 @@ def _cc(cmd):
 def build_levels(levels, fresh=True):
     """compile the library sources of the current tree and the probe at every DEBUG value in levels
     (all compile jobs of all levels share one pool).  Returns (dict c -> exe, log)."""
-    text, info = tree_info()
-    if text is None:
-        return {}, 'translator: ' + info
+    info = probe_info()
+    if info is None:
+        return {}, 'translator: ' + tree_info()[1]
     if fresh:
         shutil.rmtree(IMPL_DIR, ignore_errors=True)
     os.makedirs(IMPL_DIR, exist_ok=True)
@@ -177,7 +207,7 @@ def run_cells(cases, start=0):
         if k < start:
             parsed.append(None)
             continue
-        if len(t) == 6 and re.match(r'^\d+$', t[1]):
+        if len(t) == 6 and re.match(r'^\d+$', t[1]) and t[5] in ('0', '1', '2', '3'):
             parsed.append((t[0], int(t[1]), t[2], t[3], t[4], t[5]))
         else:
             parsed.append('HARNESS-ERROR:bad-case')
@@ -333,7 +363,12 @@ class C20(vlib.PropertyCheck):
               'soundness theorem proved once for any ladder (behaviour depends on c, r only through comparisons with constants occurring in the '
               'ladder). Tie, decided by the probe matrix only: that gcc expands the macros as the translator reads them, and that msgs.c behaves as '
               'Debug/MsgsModel.v (probe per macro and primitive, DEBUG in {0..5,9998,9999,10000}, runtime levels 0..6 and 9999, silent on/off, '
-              'program name set/NULL; stderr line classes, exit status, argument side-effect counters, return value). The non-gcc branches of the '
+              'program name set/NULL; stderr line classes, exit status, argument side-effect counters, return value; every use also in a second '
+              'variant whose condition spelling / argument strings are full of text that looks like printf conversions (%s %d %% "% s"), with the '
+              'logged text required to contain the stringified condition exactly as the preprocessor spells it, resp. the correctly formatted '
+              'message). The translator holds every output call of a macro body to `constant format string + one argument of the right type per '
+              'conversion`, the stringified parameter only as an argument of %s: a format built from the parameter is outside the language '
+              '(broken tie; the probes are then generated from a lenient second reading of the macro list and supply the failing cell). The non-gcc branches of the '
               'header are proved on the translator\'s reading but not probed.'),
         design_ref='DESIGN.md section 7, C20')
 
@@ -363,13 +398,18 @@ class C20(vlib.PropertyCheck):
 
     # ---- cells ----------------------------------------------------------------------------
     def cells(self, tier):
-        text, info = tree_info()
-        if text is None:
+        info = probe_info()
+        if info is None:
             return []
         levels = LEVELS_THOROUGH if tier == 'thorough' else LEVELS_QUICK
         rts = RUNTIME_THOROUGH if tier == 'thorough' else RUNTIME_QUICK
         out = []
-        for (name, has_cond) in probe_variants(info):
+        for (name, has_cond, has_second) in probe_variants(info):
+            # condition field: bit 0 = value of the condition, bit 1 = second variant of the use (condition /
+            # argument strings that look like printf conversions)
+            conds = (1, 0) if has_cond else (1,)
+            if has_second:
+                conds = conds + tuple(x + 2 for x in conds)
             for c in levels:
                 if name.startswith('prim:') and tier == 'quick' and c not in (0, 1, 4, 9999):
                     continue
@@ -378,7 +418,7 @@ class C20(vlib.PropertyCheck):
                         for nm in (1, 0):
                             if nm == 0 and tier == 'quick' and r not in (0, 1, 9999):
                                 continue
-                            for cond in ((1, 0) if has_cond else (1,)):
+                            for cond in conds:
                                 out.append('%s %d %d %d %d %d' % (name, c, r, silent, nm, cond))
         return out
 
@@ -386,6 +426,10 @@ class C20(vlib.PropertyCheck):
         """specification lines for the cases, from the extracted Coq definitions (model driver, 'spec' mode)"""
         todo = [c for c in cases if c not in self._spec]
         exe = os.path.join(vlib.BUILD, 'c20_model')
+        if tree_info()[0] is None:
+            # no translation of this tree: the specification of the families as last extracted from a tree
+            # whose theorems checked (build/c20_model would be a stale file)
+            exe = vlib.good_model(self.family) or exe
         if not todo or not os.path.exists(exe):
             return
         work = os.path.join(vlib.BUILD, 'work', 'c20')
@@ -432,7 +476,10 @@ class C20(vlib.PropertyCheck):
         if sp is None or sp.startswith('DRIVER-ERROR'):
             return None
         if iout != sp:
-            return 'specification of the macro family says "%s", the implementation did "%s"' % (sp, iout)
+            note = ''
+            if ' txt=BAD' in iout and ' txt=ok' in sp:
+                note = ' (the text it logged does not contain the literal condition / message text of the use)'
+            return 'specification of the macro family says "%s", the implementation did "%s"%s' % (sp, iout, note)
         return None
 
     def nontrivial(self, case, mout):
@@ -447,9 +494,10 @@ class C20(vlib.PropertyCheck):
         rts = RUNTIME_THOROUGH if tier == 'thorough' else RUNTIME_QUICK
         cov['exhaustive'] = True
         cov['exhaustive_bounds'] = dict(
-            macros=[n for (n, _) in probe_variants(info)] if text else [],
+            macros=[n for (n, _, _) in probe_variants(info)] if text else [],
             compile_time_levels=levels, runtime_levels=rts, silent=[0, 1],
             program_name=['set', 'NULL (quick: at runtime levels 0, 1, 9999)'], condition=['true', 'false (macros that take one)'],
+            use_variant=['plain', 'condition text / argument strings full of %-conversions (macros that take a condition or an argument list, primitives)'],
             note='every cell of the product is executed against the implementation, the extracted model and the extracted specification')
         cov['probe_cells'] = getattr(self, '_ncells', 0)
         cov['probe_builds'] = dict(levels=levels, seconds=getattr(self, '_build_s', None),
